@@ -49,6 +49,11 @@ type c15Case struct {
 	// TSOFault > 0: the engine's timestamp service fails the new node's TSOFault-th request once (the election reads
 	// the start revision from it right after writing the lock record)
 	TSOFault int `json:"tso_fault,omitempty"`
+	// StandbyQuiet: the standby does not look at the lock again during the old leader's term (a term shorter than the
+	// elector's retry period): what it knows about the lock predates that term
+	StandbyQuiet bool `json:"standby_quiet,omitempty"`
+	// TSOFaultRun: that many consecutive requests fail from there (0 and 1 = one)
+	TSOFaultRun int `json:"tso_fault_run,omitempty"`
 	// Standby: the node that will take over is a long-lived standby; its elector has been polling the lock (Get) since
 	// before the old leader's history (same process, so not with a re-opened Badger)
 	Standby bool `json:"standby,omitempty"`
@@ -95,7 +100,12 @@ func genC15(t *rapid.T) interface{} {
 	if !c.Reopen && DrawBool(t, 30, "standby") {
 		c.Standby = true
 		if c.TSOFault == 0 && DrawBool(t, 50, "standbyFault") {
-			c.TSOFault = rapid.IntRange(1, 3).Draw(t, "standbyFaultAt")
+			c.TSOFault = rapid.SampledFrom([]int{1, 1, 2, 3}).Draw(t, "standbyFaultAt")
+		}
+		c.StandbyQuiet = DrawBool(t, 50, "standbyQuiet")
+		if c.TSOFault > 0 && DrawBool(t, 50, "faultRun") {
+			// the timestamp service stays down for two or three requests in a row
+			c.TSOFaultRun = rapid.IntRange(2, 3).Draw(t, "tsoFaultRun")
 		}
 	}
 	for i := 0; i < 5; i++ {
@@ -208,7 +218,11 @@ func runC15(ci interface{}, st *CaseStats) error {
 			if atomic.LoadInt32(&released) == 0 {
 				return Pass
 			}
-			if int(atomic.AddInt32(&tsoAfterRelease, 1)) == c.TSOFault && atomic.LoadInt32(&takeoverDone) == 0 {
+			run := c.TSOFaultRun
+			if run < 1 {
+				run = 1
+			}
+			if n := int(atomic.AddInt32(&tsoAfterRelease, 1)); n >= c.TSOFault && n < c.TSOFault+run && atomic.LoadInt32(&takeoverDone) == 0 {
 				atomic.StoreInt32(&tsoFaultFired, 1)
 				return FailNoApply
 			}
@@ -247,7 +261,7 @@ func runC15(ci interface{}, st *CaseStats) error {
 		if i >= c.StopAt {
 			break
 		}
-		if newB != nil && c.Standby && i%3 == 0 {
+		if newB != nil && c.Standby && !c.StandbyQuiet && i%3 == 0 {
 			// the standby's elector looks at the lock once per retry period
 			_, _ = newB.GetResourceLock().Get()
 			st.Label("standby-polled-during-old-term")
